@@ -377,8 +377,20 @@ func ruleC20TermPass(c *Ctx) {
 		c.S.Undecided("R-C20-term-releases", "type", "-", "RedisEmu is not a struct")
 		return
 	}
+	// the emulator's fields, including those of helper structs it embeds
+	var fields []*types.Var
 	for i := 0; i < st.NumFields(); i++ {
 		f := st.Field(i)
+		fields = append(fields, f)
+		if f.Embedded() {
+			if est, ok := deref(f.Type()).Underlying().(*types.Struct); ok {
+				for j := 0; j < est.NumFields(); j++ {
+					fields = append(fields, est.Field(j))
+				}
+			}
+		}
+	}
+	for _, f := range fields {
 		ts := f.Type().String()
 		kind := ""
 		switch {
